@@ -84,7 +84,8 @@ PROPS = {
                        "statement text incl. embedded newlines, and source_map_add_opcode followed by write_stmnt "
                        "records exactly the 0-based line and the column where the statement begins (both decompilers); "
                        "one step covers outputs of any length. (S2) call protocol of the statement-writing handlers that "
-                       "run without graph state. Concrete decompilations of F6 inputs validate the model (E3).",
+                       "run without graph state; (S3) the source map returned with a fallback answer. Concrete decompilations of F6 "
+                       "inputs are checked entry by entry against the emitted text (E3, replayable violations).",
         "technique": "CrossHair+z3 symbolic execution of the real writer methods (inductive invariant step) and of the "
                      "write handlers on recording stand-ins",
         "level_text": "The invariant step is solver-decided for all statement texts up to the bound from a case-split set "
@@ -122,7 +123,8 @@ PROPS = {
                        "kind sequence up to the bound, with symbolic label ids (defined / undefined / shared) and "
                        "symbolic offset gaps; post: unique offsets, target-last and in-range for every jump-carrying op, "
                        "no pseudo op left, undefined label <=> SsbCompilerError, non-alias routines non-empty. The "
-                       "closure predicate is also evaluated on all real compilation results of F1-F5 (model validation).",
+                       "closure predicate is also evaluated on all real compilation results of F1-F5 (a failing result is a "
+                       "replayable violation); S1b covers 5-element lists over a reduced alphabet.",
         "technique": "CrossHair+z3 symbolic execution of the real label/jump back end over all kind sequences "
                      "(case split) with symbolic label ids and offsets",
         "level_text": "All labelled lists up to 3 (quick) / 4 (thorough) elements are covered by the solver; longer "
@@ -140,7 +142,7 @@ PROPS = {
                        "text, concrete on every path, is compiled by the real SsbScriptSsbCompiler (ANTLR, untraced) "
                        "and the result is compared with the input while offsets are still symbolic: same routines, "
                        "kinds, targets, opcodes, parameters, and every jump parameter denotes the corresponding op. "
-                       "Larger inputs (family F6) are compared directly as model validation.",
+                       "Larger inputs (family F6) are round-tripped concretely and compared op for op (replayable violations).",
         "technique": "CrossHair+z3 symbolic execution of the real SsbScript decompiler composed with the real "
                      "SsbScript compiler (untraced stage), case-split over opcode kinds and layouts",
         "level_text": "All offsets/gaps/targets within the bounds are covered by the solver for each opcode-kind "
